@@ -90,6 +90,10 @@ func c09ParamOf(v ssa.Value) (*ssa.Function, int) {
 // function all of whose call sites are known, it is replaced by the values
 // passed at those call sites (not above `stop`).  ok is false if some origin cannot be resolved.
 func c09Origins(p *Prog, v ssa.Value, depth int, stop *ssa.Function) (vals []ssa.Value, ok bool) {
+	// a variable of a step table's owner assigned by an earlier step: the value assigned there
+	if w := c09StepCellValue(v); w != nil {
+		return []ssa.Value{w}, true
+	}
 	// a captured variable: the value of the enclosing function's cell
 	if r := c09Resolved(v); r != nil && r != v {
 		if in, isIn := r.(ssa.Instruction); !isIn || in.Parent() != c09ParentOf(v) {
@@ -566,6 +570,13 @@ func c09SuccessCut(fn *ssa.Function, calls []ssa.Instruction, ct *cut) {
 	for _, in := range calls {
 		call, ok := in.(ssa.CallInstruction)
 		if !ok {
+			// the first instruction behind the "table exhausted" edge of a step table (c09EffectSites): the step
+			// that makes the effect has returned nil when it runs
+			for _, sl := range c09StepLoops(fn) {
+				if len(sl.Done.To.Instrs) > 0 && sl.Done.To.Instrs[0] == in {
+					ct.Edges(sl.Done)
+				}
+			}
 			continue
 		}
 		e := ErrOf(call)
@@ -1459,4 +1470,171 @@ func c09CellStores(addr ssa.Value) []*ssa.Store {
 	}
 	visit(cell, 0)
 	return out
+}
+
+// ---------- step tables as sequences (Storage.Push as a table of step closures) ----------
+
+// c09StepFns: the step closures of a first-error step table in the order of the table (nil when some element is
+// not a closure literal at a constant index).
+func c09StepFns(sl c11StepLoop) []*ssa.Function {
+	out := make([]*ssa.Function, len(sl.Steps))
+	for _, st := range sl.Steps {
+		mc, ok := c09Resolved(st).(*ssa.MakeClosure)
+		if !ok || st.Referrers() == nil {
+			return nil
+		}
+		placed := false
+		for _, ref := range *st.Referrers() {
+			s, isStore := ref.(*ssa.Store)
+			if !isStore || s.Val != st {
+				continue
+			}
+			ia, isIA := s.Addr.(*ssa.IndexAddr)
+			if !isIA {
+				continue
+			}
+			k, isConst := constInt(ia.Index)
+			if !isConst || k < 0 || int(k) >= len(out) || out[k] != nil {
+				return nil
+			}
+			out[k], placed = mc.Fn.(*ssa.Function), true
+		}
+		if !placed {
+			return nil
+		}
+	}
+	for _, g := range out {
+		if g == nil {
+			return nil
+		}
+	}
+	return out
+}
+
+// c09StepOf: g is step #idx of a first-error step table of its parent (the loop goes on only on a nil result, so
+// step idx runs only after the steps before it returned nil).
+func c09StepOf(g *ssa.Function) (fns []*ssa.Function, idx int, sl c11StepLoop, ok bool) {
+	if g == nil || g.Parent() == nil {
+		return nil, -1, sl, false
+	}
+	for _, l := range c09StepLoops(g.Parent()) {
+		fs := c09StepFns(l)
+		for i, f := range fs {
+			if f == g {
+				return fs, i, l, true
+			}
+		}
+	}
+	return nil, -1, sl, false
+}
+
+// c09StepBodies: fn and the step closures of its first-error step tables (the bodies that together are fn's sequence).
+func c09StepBodies(fn *ssa.Function) []*ssa.Function {
+	out := []*ssa.Function{fn}
+	for _, l := range c09StepLoops(fn) {
+		out = append(out, c09StepFns(l)...)
+	}
+	return out
+}
+
+// c09StepCellValue: v is read in (a closure nested in) step j from a variable of the function that owns the table,
+// which is declared without a value there and assigned exactly once, by an earlier step i < j, on every path on
+// which that step returns nil (`ingest, err = s.ingest(…); return err`): the value assigned.
+func c09StepCellValue(v ssa.Value) ssa.Value {
+	ld, ok := strip(v).(*ssa.UnOp)
+	if !ok || ld.Op != token.MUL {
+		return nil
+	}
+	fv, ok := ld.X.(*ssa.FreeVar)
+	if !ok {
+		return nil
+	}
+	reader := fv.Parent()
+	bs := freeVarBindings(fv)
+	if len(bs) != 1 {
+		return nil
+	}
+	a, ok := bs[0].(*ssa.Alloc)
+	if !ok || len(storesTo(a)) != 0 {
+		return nil
+	}
+	fns, j, _, ok := c09StepOf(reader)
+	if !ok || a.Parent() != reader.Parent() {
+		return nil
+	}
+	ws := closureWriters(a)
+	if len(ws) != 1 {
+		return nil
+	}
+	w := ws[0]
+	i := -1
+	for k, f := range fns {
+		if f == w {
+			i = k
+		}
+	}
+	if i < 0 || i >= j {
+		return nil
+	}
+	var stores []*ssa.Store
+	for _, wfv := range w.FreeVars {
+		if wb := freeVarBindings(wfv); len(wb) == 1 && wb[0] == ssa.Value(a) {
+			for _, r := range *wfv.Referrers() {
+				switch u := r.(type) {
+				case *ssa.Store:
+					if u.Addr == ssa.Value(wfv) {
+						stores = append(stores, u)
+					}
+				case *ssa.MakeClosure:
+					return nil
+				}
+			}
+		}
+	}
+	if len(stores) != 1 || !c09NilReturnsPass(w, []ssa.Instruction{stores[0]}) {
+		return nil
+	}
+	return stores[0].Val
+}
+
+// c09BehindStepSuccess: `at` runs only inside a step of a first-error step table (in the step closure or in
+// helpers entered only from it) and an earlier step of the same table reports success only behind a successful
+// call accepted by isEffect.
+func c09BehindStepSuccess(p *Prog, at ssa.Instruction, isEffect func(call ssa.CallInstruction) bool, depth int) bool {
+	fn := at.Parent()
+	if fns, j, _, ok := c09StepOf(fn); ok {
+		for _, g := range fns[:j] {
+			var calls []ssa.Instruction
+			for _, call := range Calls(g, func(string) bool { return true }) {
+				if _, isCall := call.(*ssa.Call); isCall && isEffect(call) {
+					calls = append(calls, call.(ssa.Instruction))
+				}
+			}
+			if len(calls) == 0 {
+				continue
+			}
+			ct := newCut()
+			c09SuccessCut(g, calls, ct)
+			if ok, _ := c09SuccessImplies(g, ct); ok {
+				return true
+			}
+		}
+		return false
+	}
+	if depth <= 0 {
+		return false
+	}
+	sites, closed := c09SitesOf(p, fn)
+	if !closed || len(sites) == 0 {
+		return false
+	}
+	for _, cs := range sites {
+		if _, isGo := cs.At.(*ssa.Go); isGo {
+			return false
+		}
+		if !c09BehindStepSuccess(p, cs.At, isEffect, depth-1) {
+			return false
+		}
+	}
+	return true
 }
